@@ -416,6 +416,18 @@ local function cobyte(n)
   if ok then return r end
   error(r, 0)
 end
+local function manyloc(...) local BIGLOCALS = 0 return select('#', ...) end
+local function coargs(n)
+  local co = coroutine.create(manyloc)
+  local pok, ok, r = pcall(coroutine.resume, co, unpack(mkt(n)))
+  if not pok then
+    if coroutine.status(co) == "suspended" then error(ok, 0) end -- the resumer itself hit a limit before the coroutine started
+    error("COBROKEN resume raised the coroutine's error instead of returning false: " .. tostring(ok), 0)
+  end
+  if coroutine.running() ~= nil or coroutine.status(co) ~= "dead" then error("COBROKEN after a coroutine ended: status " .. coroutine.status(co), 0) end
+  if ok then return r end
+  error(r, 0)
+end
 local function threegen()
   local C
   local A = coroutine.create(function()
@@ -457,14 +469,18 @@ func (e *Engine) demandProgram(t *core.Tape) (string, int) {
 		}
 		fmt.Fprintf(&bl, "w%d", i)
 	}
-	sb.WriteString(strings.Replace(demandPrelude, "BIGLOCALS", bl.String(), 1))
+	sb.WriteString(strings.Replace(demandPrelude, "BIGLOCALS", bl.String(), -1))
 	depths := []int{1, 5, 7, 8, 9, 15, 16, 17, 30, 60, 63, 64, 65, 100, 127, 128, 129, 200, 255, 256, 257, 400}
 	argc := []int{1, 2, 50, 100, 120, 127, 128, 129, 200, 250, 255, 256, 257, 500, 1000, 2000}
 	n := 3 + t.Choose(6)
 	maxArg := 0
 	for i := 0; i < n; i++ {
 		id := fmt.Sprintf("d%d", i)
-		switch t.Choose(22) {
+		switch t.Choose(23) {
+		case 22:
+			a := argc[t.Choose(len(argc))]
+			maxArg = max(maxArg, a)
+			fmt.Fprintf(&sb, "run(%q, coargs, %d)\n", id, a)
 		case 16:
 			fmt.Fprintf(&sb, "run(%q, fewargs3, %d)\n", id, t.Choose(70))
 		case 17:
